@@ -310,6 +310,9 @@ func (c *fnCtx) buildCandidates(li *loopInfo, phis []*ssa.Phi) {
 			})
 			mk(".off>=", ".off >= entry.off", func(v, e *Val) string { return "(>= " + v.T[1] + " " + e.T[1] + ")" })
 			mk(".len<=", ".len <= entry.len", func(v, e *Val) string { return "(<= " + v.T[2] + " " + e.T[2] + ")" })
+			mk(".fresh", " is nil, fresh or the entry array", func(v, e *Val) string {
+				return "(or (= " + v.T[0] + " 0) (> (owner " + v.T[0] + ") " + c.em.wm0 + ") (= " + v.T[0] + " " + e.T[0] + "))"
+			})
 			mk(".nonnil", " non-nil as entry", func(v, e *Val) string {
 				return "(=> (not (= " + e.T[0] + " 0)) (not (= " + v.T[0] + " 0)))"
 			})
